@@ -146,6 +146,14 @@ def truthy {β : Type} : Option (List β) → Bool
   | some (_ :: _) => true
   | _ => false
 
+/-- `if x:` / `if not x:` on an argument that is `None` or a value that is never falsy in the model's type (`xy_range`: a list of
+    four numbers; the empty list `[]`, falsy but not `None`, is not a value of `Option (α × α × α × α)`): the value when the
+    argument is TRUTHY.  Defined by cases (not as the identity) so that `match truthyVal x with …` -- the truthiness test -- and
+    `match x with …` -- the test `x is None` -- are different texts that `rfl` does not identify. -/
+def truthyVal {β : Type} : Option β → Option β
+  | some v => some v
+  | none => none
+
 /-- the elements of an argument that is `None` or a list, where the source iterates over it (reached only when it is
     truthy; `None` has no elements) -/
 def seqOf {β : Type} : Option (List β) → List β
@@ -252,18 +260,35 @@ def pyEnumerate {β : Type} (xs : List β) : List (Nat × β) := pyEnumerateFrom
 
 /-! ### 2-D landscape plots -/
 
-/-- what the plots read of a `PersLandscapeExact` AFTER `landscape.compute_landscape()`: the sequence that iterating the object
-    yields (`__getitem__(0)`, `__getitem__(1)`, … until `IndexError`: the entries of `critical_pairs`) and `max_depth` -/
+/-- what the plots read of a `PersLandscapeExact`, as the object is when it is passed in (it may have been built with
+    `compute=False`): `depths` = the stored `critical_pairs` (what iterating a COMPUTED object yields: `__getitem__(0)`,
+    `__getitem__(1)`, … until `IndexError`), `max_depth` = the stored attribute, and `fromDgms` = the list that
+    `compute_landscape()` computes from `self.dgms` when nothing is stored (the sweep of Generated/SrcSweep.lean applied to the
+    object's diagram: `sweep o.dgms` of `SrcLib.Landscape.ExactObj.compute_landscape`, here a field of the object) -/
 structure LandExact (α : Type) where
   depths : List (List (α × α))
   max_depth : Int
+  fromDgms : List (List (α × α))
 
-/-- the same for a `PersLandscapeApprox`: the rows of `values`, `max_depth`, `start`, `stop` -/
+/-- `landscape.compute_landscape()` as the STATE TRANSFORMER it is: `if self.critical_pairs: return …` (nothing changes when a
+    landscape is stored), otherwise `self.max_depth = len(L)`, `self.critical_pairs = […]` (the same representation as
+    `SrcLib.Landscape.ExactObj.compute_landscape`, with `max_depth`, which the plots read, written too) -/
+def LandExact.compute_landscape (o : LandExact α) : LandExact α :=
+  if o.depths.isEmpty then { o with depths := o.fromDgms, max_depth := (o.fromDgms.length : Int) } else o
+
+/-- the same for a `PersLandscapeApprox`: the rows of the stored `values`, `max_depth`, `start`, `stop`, and `fromDgms` = the rows
+    of the array that `compute_landscape()` computes from `self.dgms` on the grid when `values` is empty (`ramp o.dgms …` of
+    `SrcLib.Landscape.GridObj.compute_landscape`) -/
 structure LandApprox (α : Type) where
   depths : List (List α)
   max_depth : Int
   start : α
   stop : α
+  fromDgms : List (List α)
+
+/-- `landscape.compute_landscape()`: `if self.values.size: return`, otherwise `self.values = L`, `self.max_depth = len(L)` -/
+def LandApprox.compute_landscape (o : LandApprox α) : LandApprox α :=
+  if o.depths.all (·.isEmpty) then { o with depths := o.fromDgms, max_depth := (o.fromDgms.length : Int) } else o
 
 /-- `if not depth_range: depth_range = range(stop)` on `None`-or-a-list-of-depths (a `range` object is the list of its elements) -/
 def rangeOr (dr : Option (List Nat)) (stop : Int) : List Nat :=
